@@ -16,9 +16,10 @@ Lemma lock_script_spec st key id px :
   | Some e => if bulk_eqb (evalue e) (BStr id) then (RBulk (BStr "OK"), taken) else (RNil, st)
   end.
 Proof.
-  unfold eval, Lua_lock.script. index_simp. unfold bind, redis_call, ret. cbn.
-  destruct (lookup st key) as [e|] eqn:L; cbn.
-  - destruct (bulk_eqb (evalue e) (BStr id)) eqn:E; cbn; rewrite ?L;
+  unfold eval, Lua_lock.script. index_simp. unfold bind, redis_call, ret. cbn -[bulk_eqb].
+  destruct (lookup st key) as [e|] eqn:L; cbn -[bulk_eqb].
+  - rewrite ?(bulk_eqb_sym (BStr id) (evalue e)).      (* either operand order of == *)
+    destruct (bulk_eqb (evalue e) (BStr id)) eqn:E; cbn -[bulk_eqb]; rewrite ?L;
       destruct (px <=? 0); cbn; reflexivity.
   - rewrite ?L. destruct (px <=? 0); cbn; reflexivity.
 Qed.
@@ -31,8 +32,9 @@ Lemma del_script_spec st key id :
   | None => (RInt 0, st)
   end.
 Proof.
-  unfold eval, Lua_del.script. index_simp. unfold bind, redis_call, ret. cbn.
-  destruct (lookup st key) as [e|] eqn:L; cbn.
-  - destruct (bulk_eqb (evalue e) (BStr id)) eqn:E; cbn; rewrite ?L; reflexivity.
+  unfold eval, Lua_del.script. index_simp. unfold bind, redis_call, ret. cbn -[bulk_eqb].
+  destruct (lookup st key) as [e|] eqn:L; cbn -[bulk_eqb].
+  - rewrite ?(bulk_eqb_sym (BStr id) (evalue e)).
+    destruct (bulk_eqb (evalue e) (BStr id)) eqn:E; cbn -[bulk_eqb]; rewrite ?L; reflexivity.
   - reflexivity.
 Qed.
